@@ -411,7 +411,7 @@ def run_task(prop: Any, task: Dict[str, Any]) -> Dict[str, Any]:
             break
         if deadline is not None and time.time() > deadline and i >= 2:
             break
-        rng = util.sub_rng(task["seed"], "C15", task["env"], cfg["id"], kind, task["shard"], i)
+        rng = util.sub_rng(task["seed"], "C15", task["env"], cfg["id"], kind, task.get("aggregators", "default"), task["shard"], i)
         s0 = stats.steps
         r0 = stats.checks.get("resets_compared", 0)
         # every run starts from the adapter's initial key so that it can be replayed alone
@@ -451,7 +451,7 @@ def run_task(prop: Any, task: Dict[str, Any]) -> Dict[str, Any]:
             samples.append({"env": task["env"], "config": cfg["id"], "adapter": kind, "ops": ops[:10], "n_ops": len(ops)})
         i += 1
     return {
-        "task": {"prop": "C15", "env": task["env"], "cfg": cfg["id"] + ":" + kind, "shard": task["shard"]},
+        "task": {"prop": "C15", "env": task["env"], "cfg": cfg["id"] + ":" + kind + ":" + task.get("aggregators", "default"), "shard": task["shard"]},
         "runs": stats.runs, "attempted": i, "steps": stats.steps, "faults": stats.faults, "policies": {},
         "transports": {kind: stats.steps}, "probes": stats.probes, "checks": stats.checks,
         "states": np.fromiter(stats.states, dtype=np.uint64, count=len(stats.states)).tobytes(), "n_states": len(stats.states),
